@@ -33,7 +33,7 @@ Theorem C05_restore_gateway_done : forall c n g, tc_refs c = true -> tr_ok (rest
   n_route (apply_writes n (tr_writes (restore_gateway c n g))) = RNone.
 Proof. exact restore_gateway_ok_effect. Qed.
 Print Assumptions C05_restore_gateway_done.
-Theorem C05_remove_canary_service_done : forall c n g, tc_refs c = true -> tr_ok (remove_canary_service c n g) = true ->
+Theorem C05_remove_canary_service_done : forall c n g, tc_refs c = true -> tc_only_traffic c = false -> tr_ok (remove_canary_service c n g) = true ->
   n_canary_svc (apply_writes n (tr_writes (remove_canary_service c n g))) = None.
 Proof. exact remove_canary_ok_effect. Qed.
 Print Assumptions C05_remove_canary_service_done.
